@@ -177,8 +177,10 @@ impl Property for C15 {
         for p in prefixes {
             let input = &file[..p];
             // symbols fully determined by p - LOOKAHEAD bytes
-            let need = if p >= LOOKAHEAD {
-                let lim = p - LOOKAHEAD;
+            // (VERIF_C15_LOOKAHEAD is for experiments only: the property states 64)
+            let la = std::env::var("VERIF_C15_LOOKAHEAD").ok().and_then(|s| s.parse().ok()).unwrap_or(LOOKAHEAD);
+            let need = if p >= la {
+                let lim = p - la;
                 let idx = ends.partition_point(|(e, _)| *e <= lim);
                 if idx == 0 {
                     0
@@ -281,6 +283,11 @@ impl Property for C15 {
                     st.class("lag:0 bytes behind the table");
                 } else {
                     st.class("lag:some symbols pending");
+                    // input bytes written beyond the end of the first undelivered symbol
+                    let k = ends.partition_point(|(_, prod)| *prod <= r.out.len());
+                    if k < ends.len() && ends[k].0 <= p {
+                        st.max("largest observed lag in input bytes (allowed: 64)", (p - ends[k].0) as u64);
+                    }
                 }
             }
         }
